@@ -1005,6 +1005,65 @@ class Oracle:
         return False
 
 
+    def check_program(self, defs, text, binds, keyclass, history):
+        """a program that is not an expression of the grammar (adverbs over lambdas, …): same comparison, the
+        finding key is `<backend>:[history:]<keyclass>`"""
+        ctx, pair = self.ctx, self.pair
+        for d in defs:
+            if d not in self.defined:
+                pair.define(d)
+                self.defined.add(d)
+        a, b = pair.both(text)
+        ctx.count((self.backend, "program", text, repr(binds), history))
+        ctx.bump(f"{self.backend}:{keyclass.split('[')[0]}")
+        if pair.same(a, b):
+            return True
+        if big_ints(a) or big_ints(b):
+            ctx.bump("outside-domain:int64")
+            return True
+        fresh = Pair(self.backend)
+        for n, v, how in binds:
+            fresh.bind(n, v, how)
+        for d in defs:
+            fresh.define(d)
+        fa, fb = fresh.both(text)
+        stale = fresh.same(fa, fb)
+        earlier = None
+        if stale and self.prev_binds is not None:
+            h2 = Pair(self.backend)
+            for n, v, how in self.prev_binds:
+                h2.bind(n, v, how)
+            for d in defs:
+                h2.define(d)
+            h2.both(text)
+            for n, v, how in binds:
+                h2.bind(n, v, how)
+            ha, hb = h2.both(text)
+            if not h2.same(ha, hb):
+                earlier = [[n, v, how] for n, v, how in self.prev_binds]
+        case = dict(kind="oracle", backend=self.backend, position="program", expr=text, program=text,
+                    defs=defs, bindings=[[n, klit(from_py(v)), how] for n, v, how in binds],
+                    values=[[n, v, how] for n, v, how in binds], earlier_values=earlier, earlier_programs=None,
+                    history=history, minimal=text)
+        ctx.oracle_fail(f"{self.backend}:{'history:' if stale else ''}{keyclass}", case,
+                        f"interpreted: {show_obs(b)}", f"compiled: {show_obs(a)}",
+                        "the value with the expression compiler enabled differs from the tree-walking interpreter's")
+        return False
+
+
+def _kinds(e):
+    return [e[0]] + [k for x in kids(e) for k in _kinds(x)]
+
+
+def ops_of(e):
+    out = set()
+    if e[0] in "bnrs":
+        out.add(e[1])
+    for k in kids(e):
+        out |= ops_of(k)
+    return out
+
+
 def representation(x):
     """Python-level representation class of a value (not its content)"""
     tn = type(x).__name__
@@ -1330,6 +1389,63 @@ def run_backend(ctx, G, drv, backend, quick):
         if i < 3:
             ctx.sample(dict(backend=backend, expr=G.text(e), positions=POSITIONS,
                             last_bindings=[[n, klit(from_py(v))] for n, v, _ in binds]))
+
+    # 5. Each over a one-expression lambda of atomic verbs in x (what an "apply the body to the whole list"
+    #    shortcut would compile): a number divided by zero is :undefined, a list divided by zero is inf/nan, so
+    #    flat numeric lists with a member that makes a divisor exactly 0 are in the universe; inline lambda,
+    #    named function, inside a function body and as a lambda argument; rebinding between evaluations
+    each_lists = [[4, 0, 2], [0, 3], [0.0, 2.0], [0, 0], [1, 0.0, 2.5], [1, 2, 3], [0.5, 1.5, 2.5], [5, -3, 2, 7],
+                  [-1, 0, 1], [3, 1], [1], [], [[1, 2], [3, 0]], [1, [2]]]
+    if backend == "torch":
+        each_lists = [v for v in each_lists if v != [1, [2]]] + [[1, [2]]]
+    bodies = [("b", "%", ("l", 1), ("v", "x")), ("b", "%", ("v", "x"), ("v", "x")),
+              ("b", "%", ("b", "+", ("v", "x"), ("l", 1)), ("v", "x")),
+              ("b", "-", ("b", "*", ("v", "x"), ("v", "x")), ("l", 1)), ("b", ">", ("v", "x"), ("l", 0)),
+              ("b", "^", ("v", "x"), ("l", 2)), ("n", G.neg, ("v", "x")),
+              ("b", "%", ("l", 2.5), ("b", "-", ("v", "x"), ("l", 2))), ("b", "=", ("l", 0), ("b", "%", ("l", 0), ("v", "x")))]
+    n_each = (12 if quick else 120) if backend == "numpy" else (6 if quick else 40)
+    while len(bodies) < n_each:
+        e = G.rnd(rng, rng.choice([1, 2, 2, 3]), vars_=["x"], controls=0.0)
+        if "x" in evars(e) and not (ops_of(e) & {"/", "\\"}) and e[0] in "bn" and all(
+                k not in "rs" for k in _kinds(e)):
+            bodies.append(e)
+    for body in bodies:
+        bt = G.text(body)
+        ops = "".join(sorted(ops_of(body)))
+        fname = "e" + hashlib.sha1(bt.encode()).hexdigest()[:10]
+        forms = [([], f"{{{bt}}}'(a)"),
+                 ([f"{fname}::{{{bt}}}"], f"{fname}'(a)"),
+                 ([f"{fname}h::{{{{{bt}}}'(a)}}"], f"{fname}h()"),
+                 ([], f"{{{{{bt}}}'x}}(a)"),
+                 ([f"{fname}::{{{bt}}}"], f",({fname}'(a))")]
+        for va in rng.sample(each_lists, 4 if quick else len(each_lists)):
+            binds = [("a", va, "text"), ("b", 0, "text")]
+            rebind_all(binds)
+            step += 1
+            for defs, text in forms:
+                orc.check_program(defs, text, binds, f"each[{ops}]({vkind(from_py(va))})", step)
+
+    # 6. mixed integer / real operand pairs of equal length, in both orders, under the reduce / scan / product
+    #    shapes a backend might fuse (+/a*b and friends); kinds compared exactly; all positions incl. a named
+    #    function called f(v;w) and then f(w;v)
+    mixed_pairs = [([1.5, 2.5], [2, 3]), ([0.5, 1.5, 2.5], [1, 2, 3]), ([2.5], [3]), ([1.5, -2.5, 0.5, 3.5], [5, -3, 2, 7]),
+                   ([[0.5, 1.5], [2.5, 3.5]], [[1, 2], [3, 4]]), ([1.5, 2.5], 3), (2.5, [2, 3])]
+    ab = (("v", "a"), ("v", "b"))
+    fused = [("r", "+", ("b", "*",) + ab), ("r", "*", ("b", "+",) + ab), ("r", "+", ("b", "-",) + ab),
+             ("r", "|", ("b", "*",) + ab), ("r", "&", ("b", "+",) + ab), ("s", "+", ("b", "*",) + ab),
+             ("s", "*", ("b", "+",) + ab), ("b", "*",) + ab, ("b", "+", ("r", "+", ("b", "*",) + ab), ("l", 0)),
+             ("r", "+", ("b", "*", ("b", "+", ("v", "a"), ("l", 0)), ("v", "b"))),
+             ("r", "+", ("b", "*", ("v", "a"), ("n", G.neg, ("v", "b"))))]
+    fused = [e for e in fused if ops_of(e) <= set(G.bin) | set(G.rs) | {G.neg}]
+    for w, v in (mixed_pairs if not quick else rng.sample(mixed_pairs, 4)):
+        for first, second in (((w, v)), ((v, w)), ((w, v))):
+            binds = [("a", first, "text"), ("b", second, "text")]
+            rebind_all(binds)
+            step += 1
+            for e in fused:
+                for pos in POSITIONS + ["named"]:
+                    orc.check(e, pos, binds, step)
+        ctx.bump(f"{backend}:mixed-kind-pairs")
 
     # 4. literal-kind twins: two expressions of the same shape whose literals are equal in value but not in
     #    kind (2 / 2.0, 0 / 0.0, -(1) / -(1.0)), evaluated by ONE interpreter in both orders (a fresh pair per
